@@ -240,7 +240,7 @@ def r8_bias(ctx):
   for p in rets:
     ret = p.ret
     if not (isinstance(ret, ast.Call) and common.call_name(ret).endswith('UniformQuantParams')):
-      raise index.AnalysisError(f'{f.fq}: no longer returns UniformQuantParams(...)')
+      raise index.AnalysisError(f'{R}: {f.fq} no longer returns UniformQuantParams(...) directly (the construction rule cannot read it; the bias law is decided on values by C04.R14 / C04.R15)')
     kw = {k.arg: k.value for k in ret.keywords}
     sc = kw.get('scale')
     # look through squeeze / expand_dims
@@ -394,6 +394,41 @@ def r12_parameter_laws(ctx):
                     f'[min, max] is not covered up to half a step (scale {float(sc):.6g}, zero point {zp})')
 
 
+
+def r13_rank_fix_table(ctx, R='C17.R13'):
+  """fix_quantization_params_rank on values: flat per-channel parameters are expanded so that they broadcast along the
+  quantized dimension (any position), per-tensor parameters to all-ones shapes, parameters of the right rank are
+  handed back unchanged - whatever the function looks like inside."""
+  from sa import absint  # pylint: disable=g-import-not-at-top
+  from sa.consteval import Obj  # pylint: disable=g-import-not-at-top
+  from sa.ndarr import NdArr  # pylint: disable=g-import-not-at-top
+  rs = ctx.rule(R, 'rank fix-up table: flat parameters are expanded along the quantized dimension (any position), values unchanged', floor=1)
+  f = ctx.repo.func(f'{UQT}:fix_quantization_params_rank')
+  ctx.instance(R)
+  it = absint.Interp(ctx.repo, ctx.ev)
+  rs.exhaustive = True
+  for shape, qd in (((2, 3, 4), 0), ((2, 3, 4), 1), ((2, 3, 4), 2), ((3, 2), 1), ((3, 2), 0), ((2, 3, 4), None), ((5,), 0)):
+    n = 1
+    for x in shape:
+      n *= x
+    tensor = NdArr(shape, list(range(n)))
+    nch = 1 if qd is None else shape[qd]
+    sc = NdArr((nch,), [k + 2 for k in range(nch)])
+    zp = NdArr((nch,), [k - 1 for k in range(nch)], 'i')
+    params = Obj('qtyping:UniformQuantParams', {'num_bits': 8, 'quantized_dimension': qd, 'scale': sc, 'zero_point': zp, 'symmetric': True, 'quantized_data': None, 'block_size': 0, 'hadamard': None})
+    outs = it.outcomes(f, [tensor, params], copy_args=False)
+    label = f'tensor shape {shape}, quantized dimension {qd}, {nch} flat parameters'
+    if len(outs) != 1 or outs[0].kind != 'return' or not isinstance(outs[0].value, Obj):
+      ctx.check(R, False, f.node, f, label, f'not decided: {[o.short()[:100] for o in outs]}')
+      continue
+    r = outs[0].value.fields
+    want_shape = tuple(shape[k] if k == qd else 1 for k in range(len(shape))) if len(shape) != 1 else (nch,)
+    shape_ok = (lambda shp: all(d == 1 for d in shp)) if qd is None else (lambda shp: shp == want_shape)   # per-tensor parameters: any all-ones shape broadcasts
+    ok = all(isinstance(r[k], NdArr) and shape_ok(r[k].shape) and list(r[k].data) == list(src.data) for k, src in (('scale', sc), ('zero_point', zp)))
+    ok = ok and r['num_bits'] == 8 and r['quantized_dimension'] == qd and r['symmetric'] is True
+    got = {k: (r[k].shape if isinstance(r[k], NdArr) else r[k]) for k in ('scale', 'zero_point')}
+    ctx.check(R, ok, f.node, f, f'{label} -> {got}', f'scale and zero point must keep their values and get the shape {want_shape} (1 everywhere but along the quantized dimension); width, dimension and symmetry unchanged')
+
 def run(ctx):
   ctx.assume('numpy functions are uninterpreted; np.multiply/add/subtract/divide are the arithmetic operators')
   shared.rule_clip_before_cast(ctx, 'C17.R1')
@@ -406,3 +441,4 @@ def run(ctx):
   shared.rule_rebuild_completeness(ctx, 'C17.R10')
   r11_scalar_table(ctx)
   r12_parameter_laws(ctx)
+  r13_rank_fix_table(ctx)
